@@ -1222,7 +1222,8 @@ Qed.
 (* H. histories and crash points                                           *)
 (* ====================================================================== *)
 Definition good (W : world) (s : store) : Prop := wfW W /\ Rep W s.
-Definition wop_ok (o : wop) : bool := match o with WCreate _ _ _ _ => true | WOp _ o => op_ok o end.
+Definition wop_ok (o : wop) : bool :=
+  match o with WCreate _ _ _ _ => true | WOp _ o => op_ok o | WRestart => true end.
 
 Lemma wfW_put W id c : wfW W -> wf_chan id c -> wfW (sput bytes_cmp id c W).
 Proof.
@@ -1443,12 +1444,47 @@ Proof. destruct o, x; cbn; try reflexivity; discriminate. Qed.
 Lemma call_cases c : single_call c = true \/ c = PRemoved \/ c = PNone.
 Proof. destruct c; cbn; auto. Qed.
 
+(* ---- restart: the live channels are rebuilt from the store alone ---- *)
+Lemma chan_of_snap c : chan_of_rchan (snap_of c) = c.
+Proof.
+  destruct c as [m P Q]. destruct m as [p i pr st cu]. unfold chan_of_rchan, mach_of_rchan, snap_of.
+  cbn [rc_phase rc_idx rc_params rc_stg rc_sigs rc_cur rc_peers rc_parent c_m c_peers c_parent
+       ph me ps staging current]. unfold staged_sigs. cbn [staging].
+  destruct st as [[st0 sg]|]; reflexivity.
+Qed.
+Lemma sput_lb_cons id c (W : world) : lb bytes_cmp id W -> sput bytes_cmp id c W = (id, c) :: W.
+Proof.
+  destruct W as [|[id0 c0] W]; intro L; [reflexivity|].
+  inversion L as [|? ? H _]; subst. cbn [fst] in H. cbn [sput]. rewrite H. reflexivity.
+Qed.
+Lemma rebuild_snap W : wfW W -> rebuild (map (fun ic => snap_of (snd ic)) W) = W.
+Proof.
+  intros [S H]. induction W as [|[id c] W IH]; [reflexivity|].
+  destruct S as [L S]. cbn [fst] in L. cbn [map rebuild fold_right snd]. fold (rebuild (map (fun ic => snap_of (snd ic)) W)).
+  rewrite IH.
+  - rewrite chan_of_snap. cbn [snap_of rc_params].
+    assert (E : mp_id (ps (c_m c)) = id).
+    { apply (H id c). unfold wfind. cbn [sfind]. rewrite bc_refl. reflexivity. }
+    rewrite E. apply sput_lb_cons, L.
+  - exact S.
+  - intros id' c' Hf. apply H. rewrite wfind_cons. destruct (bytes_eqb id' id) eqn:E; [|exact Hf].
+    apply bytes_eqb_eq in E. subst id'. rewrite (wlb_notfound _ _ L) in Hf. discriminate Hf.
+Qed.
+Lemma restart_step W s : good W s -> wstep W s WRestart = (W, OK, []).
+Proof.
+  intros [HW [RC RP]]. cbn [wstep]. rewrite (restore_all_spec W s RC HW), (rebuild_snap W HW). reflexivity.
+Qed.
+
 Theorem wstep_crash W s o W' x ws :
   good W s -> wop_ok o = true -> wstep W s o = (W', x, ws) ->
   good W' (apply_atomics s ws) /\
   forall k, (k <= length ws)%nat -> RepC W (stores_after s ws k) \/ RepC W' (stores_after s ws k).
 Proof.
-  intros G Hok Hstep. pose proof G as [HW [RC RP]]. destruct o as [p idx peers parent|id o]; cbn [wstep] in Hstep.
+  intros G Hok Hstep. pose proof G as [HW [RC RP]]. destruct o as [p idx peers parent|id o|].
+  3:{ (* restart: nothing is written and the rebuilt registry is the old one *)
+    rewrite (restart_step W s G) in Hstep. injection Hstep as <- <- <-.
+    split; [exact G|]. intros [|k] Hk; [left; exact RC|cbn in Hk; lia]. }
+  all: cbn [wstep] in Hstep.
   - (* creation *)
     destruct (wfind (mp_id p) W) as [c|] eqn:Hf.
     + injection Hstep as <- <- <-. split; [exact G|]. intros [|k] Hk; [left; exact RC|cbn in Hk; lia].
@@ -1643,15 +1679,20 @@ Proof.
 Qed.
 
 (* C11: what a step changes in the registry *)
-Definition wop_id (o : wop) : bytes := match o with WCreate p _ _ _ => mp_id p | WOp id _ => id end.
-Lemma wstep_other W s o W' x ws b : wsorted W -> wstep W s o = (W', x, ws) -> b <> wop_id o ->
+(* the channel an operation addresses (a restart addresses none) *)
+Definition wop_id (o : wop) : option bytes :=
+  match o with WCreate p _ _ _ => Some (mp_id p) | WOp id _ => Some id | WRestart => None end.
+Lemma wstep_other W s o W' x ws b : good W s -> wstep W s o = (W', x, ws) -> wop_id o <> Some b ->
   wfind b W' = wfind b W.
 Proof.
-  intros S E Hb. destruct o as [p idx peers parent|id o]; cbn [wstep wop_id] in *.
-  - destruct (wfind (mp_id p) W); [injection E as <- _ _; reflexivity|].
+  intros G E Hb0. pose proof (proj1 (proj1 G)) as S. destruct o as [p idx peers parent|id o|].
+  3:{ rewrite (restart_step W s G) in E. injection E as <- _ _. reflexivity. }
+  - assert (Hb : b <> mp_id p) by (intros ->; apply Hb0; reflexivity). cbn [wstep] in E.
+    destruct (wfind (mp_id p) W); [injection E as <- _ _; reflexivity|].
     destruct (chan_created _ _ _); injection E as <- _ _; [|reflexivity].
     rewrite wfind_put, bytes_eqb_neq by exact Hb. reflexivity.
-  - destruct (wfind id W) as [c|]; [|injection E as <- _ _; reflexivity].
+  - assert (Hb : b <> id) by (intros ->; apply Hb0; reflexivity). cbn [wstep] in E.
+    destruct (wfind id W) as [c|]; [|injection E as <- _ _; reflexivity].
     destruct (wrap_step s (c_m c) o) as [[m' x0] ws0]. destruct (is_withdrawn_ok o x0); injection E as <- _ _.
     + rewrite wfind_del, bytes_eqb_neq by assumption. reflexivity.
     + rewrite wfind_put, bytes_eqb_neq by exact Hb. reflexivity.
@@ -1688,6 +1729,9 @@ Proof.
   intros h o Hh Ho W s W' x ws E k Hk id rc.
   exact (crash_no_stale W s o W' x ws (good_run h Hh) Ho E k Hk id rc).
 Qed.
+Lemma C10_restart_l : forall h, forallb wop_ok h = true ->
+  wstep (fst (wrun h)) (snd (wrun h)) WRestart = (fst (wrun h), OK, []).
+Proof. intros h Hh. apply restart_step, good_run, Hh. Qed.
 Lemma C10_invariant_l : forall h, forallb wop_ok h = true ->
   Rep (fst (wrun h)) (snd (wrun h)) /\ wfW (fst (wrun h)).
 Proof. intros h Hh. destruct (good_run h Hh) as [A B]. split; assumption. Qed.
@@ -1744,13 +1788,13 @@ Qed.
 Lemma C11_frame_l : forall h o, forallb wop_ok h = true -> wop_ok o = true ->
   let W := fst (wrun h) in let s := snd (wrun h) in
   forall W' x ws, wstep W s o = (W', x, ws) ->
-  forall b, b <> wop_id o -> forall k, (k <= length ws)%nat ->
+  forall b, wop_id o <> Some b -> forall k, (k <= length ws)%nat ->
     restore_chan (apply_atomics s (firstn k ws)) b = restore_chan s b.
 Proof.
   intros h o Hh Ho W s W' x ws E b Hb k Hk. pose proof (good_run h Hh) as G.
   rewrite (restore_chan_view W s b (proj1 (proj2 G)) (proj1 G)).
   assert (Ev : view W' b = view W b).
-  { unfold view. rewrite (wstep_other W s o W' x ws b (proj1 (proj1 G)) E Hb). reflexivity. }
+  { unfold view. rewrite (wstep_other W s o W' x ws b G E Hb). reflexivity. }
   destruct (proj1 (crash_restore W s o W' x ws G Ho E k Hk b)) as [H|H]; unfold stores_after in H; rewrite H; [reflexivity|exact Ev].
 Qed.
 
